@@ -4,3 +4,4 @@ import Model.Reply
 import Model.Proxy
 import Model.Envelope
 import Model.Policy
+import Model.Store
